@@ -360,15 +360,15 @@ Proof. exact ri_transient_update. Qed.
 
 (* T2 over a resume: the hello that resumes a session keeps the invariant - the replica at the time of the cut,
    continued by what the resume flushes, is the data of the room (a queue with a closing message: the session is
-   closed).  Assumes: no session is attached to the connection; the queue holds no hello reply. *)
+   closed).  Assumes: no session is attached to the connection (Bij gives it in a step).  That no queue holds a hello reply
+   is part of RI (ri_hf). *)
 Theorem C14H_replica_over_resume_partial : forall h g c cn i, Inv h -> RI h g ->
   (forall y t, get_sess h y = Some t -> s_conn t <> Some c) ->
-  (forall n s, i = IdPriv n -> get_sess h n = Some s -> hello_free (s_pending s)) ->
   RI (fst (do_hello h c cn (HResume i))) (gouts g (snd (do_hello h c cn (HResume i)))).
 Proof. exact ri_resume. Qed.
 
 (* T2, the step of the induction over histories, for the covered operations (every operation except OJoin,
-   OInternal and the delivery of a publication that is not a transient room request; a resume under hello_free) *)
+   OInternal and the delivery of a publication that is not a transient room request) *)
 Theorem C14H_replica_step_covered_partial : forall h g o, WF h -> Inv h -> Bij h -> BusNT h -> RI h g -> covered h o ->
   RI (fst (step h o)) (gouts g (snd (step h o))).
 Proof. exact ri_step. Qed.
